@@ -132,7 +132,7 @@ const (
 	modeDynamic        // Show, showIn*, toString
 )
 
-type frame struct {
+type showFrame struct {
 	sc       *sym
 	g        *showGen
 	p        *packages.Package
@@ -148,11 +148,11 @@ type frame struct {
 	depth    int
 }
 
-func (g *showGen) newFrame(sc *sym, p *packages.Package, fd *ast.FuncDecl, mode int, depth int) *frame {
+func (g *showGen) newFrame(sc *sym, p *packages.Package, fd *ast.FuncDecl, mode int, depth int) *showFrame {
 	if depth > 6 {
 		panic("show functions nested more than 6 deep at " + fd.Name.Name)
 	}
-	fr := &frame{sc: sc, g: g, p: p, fd: fd, mode: mode, depth: depth}
+	fr := &showFrame{sc: sc, g: g, p: p, fd: fd, mode: mode, depth: depth}
 	fr.e = newEnv(p)
 	fr.e.pre = fr.pre
 	fr.e.hook = fr.hook
@@ -181,7 +181,7 @@ func (g *showGen) newFrame(sc *sym, p *packages.Package, fd *ast.FuncDecl, mode 
 	return fr
 }
 
-func (fr *frame) bind(name string, v constant.Value) {
+func (fr *showFrame) bind(name string, v constant.Value) {
 	for _, f := range fr.fd.Type.Params.List {
 		for _, n := range f.Names {
 			if n.Name == name {
@@ -194,7 +194,7 @@ func (fr *frame) bind(name string, v constant.Value) {
 }
 
 // finish classifies how a run of statements ended.
-func (fr *frame) finish(k stopKind) string {
+func (fr *showFrame) finish(k stopKind) string {
 	if fr.sc.blocked != "" || fr.sc.panicked != "" {
 		return ""
 	}
@@ -210,7 +210,7 @@ func (fr *frame) finish(k stopKind) string {
 	panic(fmt.Sprintf("%s: not translatable: %s (stop %d)", fr.fd.Name.Name, fr.e.why, k))
 }
 
-func (fr *frame) runBody() string {
+func (fr *showFrame) runBody() string {
 	out := fr.finish(fr.e.run(fr.fd.Body.List))
 	if out == "END" {
 		panic(fr.fd.Name.Name + ": reached the end of the function without a return")
@@ -247,14 +247,14 @@ func isNamed(t types.Type, pkg, name string) bool {
 	return n.Obj().Pkg().Path() == pkg && n.Obj().Name() == name
 }
 
-func (fr *frame) typeOf(x ast.Expr) types.Type { return fr.p.TypesInfo.TypeOf(x) }
+func (fr *showFrame) typeOf(x ast.Expr) types.Type { return fr.p.TypesInfo.TypeOf(x) }
 
-func (fr *frame) isReflectValue(x ast.Expr) bool {
+func (fr *showFrame) isReflectValue(x ast.Expr) bool {
 	t := fr.typeOf(x)
 	return t != nil && isNamed(t, "reflect", "Value")
 }
 
-func (fr *frame) isReflectType(x ast.Expr) bool {
+func (fr *showFrame) isReflectType(x ast.Expr) bool {
 	t := fr.typeOf(x)
 	return t != nil && isNamed(t, "reflect", "Type")
 }
@@ -311,7 +311,7 @@ func classifyType(t types.Type) (bool, string) {
 
 // typeVar classifies a package level variable holding a reflect.Type
 // (stringerType = reflect.TypeFor[fmt.Stringer]()).
-func (fr *frame) typeVar(x ast.Expr) (bool, string, bool) {
+func (fr *showFrame) typeVar(x ast.Expr) (bool, string, bool) {
 	id, ok := x.(*ast.Ident)
 	if !ok {
 		return false, "", false
@@ -335,7 +335,7 @@ func (fr *frame) typeVar(x ast.Expr) (bool, string, bool) {
 
 // typePath translates an expression of type reflect.Type of the checker into
 // a path relative to the parameter t.
-func (fr *frame) typePath(x ast.Expr) string {
+func (fr *showFrame) typePath(x ast.Expr) string {
 	switch x := x.(type) {
 	case *ast.ParenExpr:
 		return fr.typePath(x.X)
@@ -372,7 +372,7 @@ func (fr *frame) typePath(x ast.Expr) string {
 }
 
 // localDef returns the right hand side of the only `x := rhs` defining o.
-func (fr *frame) localDef(o types.Object) ast.Expr {
+func (fr *showFrame) localDef(o types.Object) ast.Expr {
 	if o == nil {
 		return nil
 	}
@@ -406,7 +406,7 @@ func boolConst(v, ok bool) constant.Value {
 	return constant.MakeBool(v)
 }
 
-func (fr *frame) isValueExpr(x ast.Expr) bool {
+func (fr *showFrame) isValueExpr(x ast.Expr) bool {
 	id, ok := x.(*ast.Ident)
 	if !ok {
 		return false
@@ -415,14 +415,14 @@ func (fr *frame) isValueExpr(x ast.Expr) bool {
 	return o != nil && (o == fr.value || o == fr.swvar)
 }
 
-func (fr *frame) valueKind() constant.Value {
+func (fr *showFrame) valueKind() constant.Value {
 	if fr.isString {
 		return constant.MakeInt64(fr.g.kinds["String"])
 	}
 	return constant.MakeInt64(fr.sc.kind)
 }
 
-func (fr *frame) isNilIdent(x ast.Expr) bool {
+func (fr *showFrame) isNilIdent(x ast.Expr) bool {
 	id, ok := x.(*ast.Ident)
 	if !ok || id.Name != "nil" {
 		return false
@@ -436,7 +436,7 @@ var dynamicInline = map[string]bool{"showInText": true, "showInHTML": true, "sho
 	"showInURL": true, "toString": true}
 
 // pre gives the symbolic atoms their current value.
-func (fr *frame) pre(x ast.Expr) constant.Value {
+func (fr *showFrame) pre(x ast.Expr) constant.Value {
 	sc := fr.sc
 	if sc.blocked != "" || sc.panicked != "" {
 		return nil
@@ -559,7 +559,7 @@ func (fr *frame) pre(x ast.Expr) constant.Value {
 }
 
 // inline runs another show function on the same value and returns its outcome.
-func (fr *frame) inline(name string, call *ast.CallExpr) string {
+func (fr *showFrame) inline(name string, call *ast.CallExpr) string {
 	var fd *ast.FuncDecl
 	if name == "showInURL" {
 		fd = findMethod(fr.p, "renderer", name)
@@ -598,7 +598,7 @@ func (fr *frame) inline(name string, call *ast.CallExpr) string {
 }
 
 // selectClause finds the clause of a kind switch selected for the constant tag.
-func (fr *frame) selectClause(s *ast.SwitchStmt, tag constant.Value) (sel int, minKind int64) {
+func (fr *showFrame) selectClause(s *ast.SwitchStmt, tag constant.Value) (sel int, minKind int64) {
 	sel, def := -1, -1
 	for i, c := range s.Body.List {
 		cc := c.(*ast.CaseClause)
@@ -645,7 +645,7 @@ func containsReturn(n ast.Node) bool {
 	return found
 }
 
-func (fr *frame) delete(x ast.Expr) {
+func (fr *showFrame) delete(x ast.Expr) {
 	if id, ok := x.(*ast.Ident); ok {
 		if o := fr.e.obj(id); o != nil {
 			delete(fr.e.vars, o)
@@ -653,7 +653,7 @@ func (fr *frame) delete(x ast.Expr) {
 	}
 }
 
-func (fr *frame) set(x ast.Expr, v constant.Value) {
+func (fr *showFrame) set(x ast.Expr, v constant.Value) {
 	if id, ok := x.(*ast.Ident); ok && id.Name != "_" {
 		if o := fr.e.obj(id); o != nil {
 			fr.e.vars[o] = v
@@ -661,10 +661,10 @@ func (fr *frame) set(x ast.Expr, v constant.Value) {
 	}
 }
 
-func (fr *frame) stop() (stopKind, bool) { return stopUnknown, true }
+func (fr *showFrame) stop() (stopKind, bool) { return stopUnknown, true }
 
 // typeCaseAtom is the atom of one type of a type switch case / type assertion.
-func (fr *frame) typeCaseAtom(x ast.Expr) string {
+func (fr *showFrame) typeCaseAtom(x ast.Expr) string {
 	if fr.isNilIdent(x) {
 		return "ANilValue"
 	}
@@ -675,7 +675,7 @@ func (fr *frame) typeCaseAtom(x ast.Expr) string {
 	return "AIs PSelf " + c
 }
 
-func (fr *frame) askType(x ast.Expr) (bool, bool) {
+func (fr *showFrame) askType(x ast.Expr) (bool, bool) {
 	if fr.isString {
 		// a Go string implements none of the interfaces and is none of the well known types
 		return false, true
@@ -684,7 +684,7 @@ func (fr *frame) askType(x ast.Expr) (bool, bool) {
 }
 
 // hook executes the statements that eval.go cannot.
-func (fr *frame) hook(s ast.Stmt) (stopKind, bool) {
+func (fr *showFrame) hook(s ast.Stmt) (stopKind, bool) {
 	sc := fr.sc
 	if sc.blocked != "" || sc.panicked != "" || fr.out != "" {
 		return fr.stop()
